@@ -342,7 +342,8 @@ func H_C01_work() {
 		w1, ok1 := work(d, b)
 		w2, ok2 := work(2*d, b)
 		vrt.Assert("work: back-propagation succeeds", ok1 && ok2)
-		vrt.Assert("work: doubling the graph depth at most triples the work (polynomial, not exponential)", w2 <= 3*w1+2000)
+		// linear work doubles, quadratic work quadruples; an exponential re-walk multiplies it by 2^d
+		vrt.Assert("work: doubling the graph depth multiplies the work by a bounded factor (polynomial, not exponential)", w2 <= 6*w1+5000)
 	}
 	dx, xe := mk("y", []int{1}, true)
 	_ = xe
